@@ -328,6 +328,11 @@ def oracle(ctx, hist, w):
             # reporting delay
             if e["latest"] + mp["rd"] > e["day"] or (kind == "instant" and e["latest"] + mp["rd"] != e["day"]):
                 V("C09:before-reporting-delay", "a site was flagged before the reporting delay had passed", det)
+        # the site's own record of its latest tagging survey must be the completion day of the latest
+        # tagging-capable survey in the observed survey log (whether or not that survey tagged anything)
+        if e.get("tag_attr") is not None and e["tag_attr"] != e["tag"]:
+            V("C09:stale:tagging-survey-not-recorded", "a completed tagging-capable survey of the site is not what the "
+              "site reports as its latest tagging survey", det)
         # strict stale clause (known finding F17 when the screening predates a later tagging survey)
         if kind == "pool" and e["tag"] > e["latest"]:
             seen["stale_strict"] += 1
